@@ -158,13 +158,10 @@ func (s *Solver) prepare(t *Term) string {
 			sb.WriteString(s.ctx.ufs[name] + "\n")
 		}
 	}
-	s.pr.sb.Reset()
-	s.pr.define(t)
-	sb.WriteString(s.pr.sb.String())
 	if sb.Len() > 0 {
 		s.base(sb.String())
 	}
-	return s.pr.ref(t)
+	return s.pr.letForm(t)
 }
 
 // Assert adds t permanently to the path condition.
